@@ -677,7 +677,7 @@ impl Check for C09 {
             let mut queries = vec![];
             for (i, (name, _)) in case.roots.iter().enumerate() {
                 queries.push(json!({"q":"validateMany","parser":name,"values": case.values[i].iter().map(|(v,_)| v.to_tagged()).collect::<Vec<_>>(), "optsList":[null, {"strict": true}]}));
-                queries.push(json!({"q":"hash256","parser":name}));
+                queries.push(json!({"q":"hash256","parser":name,"tokens":true}));
             }
             queries
         };
@@ -720,8 +720,8 @@ impl Check for C09 {
             }
             let (h1, h2) = (&r1["results"][2 * i + 1]["r"], &r2["results"][2 * i + 1]["r"]);
             if h1 != h2 {
-                let _ = d;
-                out.mismatch(ctx, "multi_file_hash256_differs", format!("{}: hash256 differs between the single-file program and its multi-file layout", name), json!({"single": case.single, "files": case.files}));
+                let class = crate::cpair::token_diff_class(&r1["results"][2 * i + 1], &r2["results"][2 * i + 1], &case.env, d);
+                out.mismatch(ctx, &format!("multi_file_hash256_differs:{}", class), format!("{}: hash256 differs between the single-file program and its multi-file layout", name), json!({"single": case.single, "files": case.files}));
             }
         }
         // negative variant
